@@ -35,6 +35,9 @@ func traceLines(tr []Ev) []string {
 // include asks the model whether the trace is one of its traces. Returns "" or the reject line.
 func include(d *lib.Drv, variant string, tr []Ev, askStuck bool) (reject string, maxSet int, stuck string, err error) {
 	lines := append([]string{"reset variant=" + variant}, traceLines(tr)...)
+	if strings.Contains(variant, " ") { // "fixed reduce=0"
+		lines[0] = "reset variant=" + variant
+	}
 	if askStuck {
 		lines = append(lines, "stuck")
 	}
@@ -144,6 +147,9 @@ func main() {
 				res.Note("model driver failed: " + err.Error())
 				d = nil
 			} else {
+				if verbose {
+					fmt.Fprintf(os.Stderr, "  model: rej=%q maxSet=%d\n", rej, maxSet)
+				}
 				if rej == "overflow" {
 					res.Hit("model-state-set:overflow(not validated)")
 				} else {
@@ -152,6 +158,21 @@ func main() {
 				}
 				if rej != "" && rej != "overflow" {
 					res.Disagree("trace inclusion: observable trace of the real Broadcaster must be a trace of KitModel.Broadcaster (variant fixed)", cr, rej, "trace produced by the implementation")
+				}
+			}
+			// the driver's state-set reduction must not change any verdict
+			if d != nil && err == nil && rej != "overflow" && res.Evaluations%3 == 0 {
+				rej0, _, _, err0 := include(d, "fixed reduce=0", o.Trace, false)
+				switch {
+				case err0 != nil:
+					res.Note("model driver failed: " + err0.Error())
+					d = nil
+				case rej0 == "overflow":
+					res.Hit("reduction-crosscheck:unreduced-overflow")
+				case (rej0 == "") != (rej == ""):
+					res.Disagree("driver reduction: reduced and unreduced state-set simulation must give the same verdict", cr, "reduced: "+rej, "unreduced: "+rej0)
+				default:
+					res.Hit("reduction-crosscheck:agree")
 				}
 			}
 			if d != nil && len(o.Stuck) > 0 {
